@@ -19,6 +19,8 @@ ProbeOK(c, p) == p.err = "" /\ p.hasBs /\ p.bs = c.solo.bs
 C10Labels(c) ==
   IF c.kind # "iso" THEN {} ELSE
   (IF c.bsAfter # c.bsBefore THEN {"caller-bindings-modified"} ELSE {})
+  \* (the extended interpreter's _.match from several executions at once: each got what it gets alone)
+  \cup (IF "matchSame" \in DOMAIN c /\ ~c.matchSame THEN {"concurrent-builtin-differs-from-alone"} ELSE {})
   \cup (IF c.propsAfter # c.propsBefore THEN {"caller-props-modified"} ELSE {})
   \cup (IF ~(c.solo.err = "" /\ c.solo.hasBs) THEN {"probe-failed"} ELSE {})
   \cup (IF ~ProbeOK(c, c.after) THEN {"pollution-visible-to-later-execution"} ELSE {})
